@@ -257,7 +257,7 @@ def run(ctx, kinds, n_quick=300, n_thorough=3000):
             if lit is not None:
                 lits.append(lit)
                 idx.append(i)
-        shards = lib.write_shards(ctx['pid'], kind, ['Values', 'MiscGen', 'Relational', 'CheckLib'], ctype, check, lits, per=150)
+        shards = lib.write_shards(ctx['pid'], kind, ['Values', 'JoinGen', 'Relational', 'CheckLib'], ctype, check, lits, per=150)
         total, bad, errors = lib.run_shards(shards)
         mism += len(bad)
         for e in errors:
